@@ -14,6 +14,8 @@ import (
 	"sync"
 	"testing"
 	"time"
+
+	"verif/harness/simdisk"
 )
 
 const verifDir = "/verif"
@@ -207,6 +209,8 @@ func TestWorker(t *testing.T) {
 	deadline := time.UnixMilli(job.Deadline)
 	k := job.Start
 	reported := map[string]bool{}
+	var enumQueue []*Case
+	enumDone := map[uint64]bool{}
 	leaks := 0
 	idx := 0
 	for {
@@ -226,6 +230,20 @@ func TestWorker(t *testing.T) {
 			k += job.Stride
 		}
 		c := GenCase(job.Prop, seed, job.Thorough)
+		// thorough: for a sample of programs enumerate the fault position over
+		// (a stride of) every storage event index of the fault-free run
+		enumerated := false
+		if job.Thorough && len(job.Seeds) == 0 && (job.Prop == "C04" || job.Prop == "C08") && seed%4 == 0 && len(enumQueue) == 0 && !enumDone[seed] {
+			enumDone[seed] = true
+			enumQueue = append(enumQueue, enumerate(t, c, wo)...)
+		}
+		if len(enumQueue) > 0 && len(job.Seeds) == 0 {
+			c = enumQueue[0]
+			enumQueue = enumQueue[1:]
+			k -= job.Stride // the seed is not consumed by an enumerated case
+			seed = c.Seed
+			enumerated = true
+		}
 		out := RunCase(t, c, false)
 		wo.Runs++
 		wo.Steps += out.Steps
@@ -256,7 +274,7 @@ func TestWorker(t *testing.T) {
 			wo.NonTrivial++
 			wo.Hashes = append(wo.Hashes, out.Hash)
 		}
-		if len(wo.SeedHash) < 64 {
+		if len(wo.SeedHash) < 64 && !enumerated {
 			wo.SeedHash[fmt.Sprint(seed)] = out.Hash
 		}
 		if len(wo.Samples) < 2 && out.NonTrivial {
@@ -762,4 +780,40 @@ func TestReplay(t *testing.T) {
 		fmt.Printf("  other: %s %s\n", v.Oracle, v.Finger)
 	}
 	os.Exit(0)
+}
+
+// enumerate derives, from one generated program, the cases that place a single
+// crash (C04) or a single storage error (C08) at every storage event index of
+// its fault-free run (strided to at most ~250 positions).
+func enumerate(t *testing.T, c *Case, wo *WorkerOut) []*Case {
+	base := c.Clone()
+	base.Faults = nil
+	out := RunCase(t, base, false)
+	n := out.Events
+	if n == 0 || len(out.Viol) > 0 {
+		return nil
+	}
+	stride := 1
+	if n > 250 {
+		stride = n / 250
+	}
+	var cases []*Case
+	for k := 1; k <= n; k += stride {
+		cc := base.Clone()
+		f := &simdisk.Fault{Nth: k, Epoch: 0, Img: c.Seed*7919 + uint64(k)}
+		if c.Prop == "C04" {
+			f.Kind = "crash"
+			f.After = k%2 == 0
+		} else {
+			f.Kind = "err"
+			f.Count = 1
+			f.Epoch = -1
+		}
+		cc.Faults = []*simdisk.Fault{f}
+		cases = append(cases, cc)
+	}
+	wo.Probes["enumerated-programs"]++
+	wo.Probes["enumerated-fault-positions"] += len(cases)
+	wo.Probes["enumerated-storage-events"] += n
+	return cases
 }
